@@ -175,6 +175,28 @@ static int cmdRandom(const char* outPath, long steps) {
   return 0;
 }
 
+// ---------------------------------------------------------------- replay of a token list (W=k, R1, R0, C=n) as a path graph
+static int cmdReplay(const char* inPath, const char* outPath) {
+  FILE* f = fopen(inPath, "r"); if (!f) { perror(inPath); return 2; }
+  vf::Out out(outPath);
+  char line[64]; long id = 1;
+  while (fgets(line, sizeof line, f)) {
+    std::string tk = line; while (!tk.empty() && (tk.back() == '\n' || tk.back() == '\r')) tk.pop_back();
+    if (tk.empty()) continue;
+    char k = tk[0]; unsigned a = (unsigned)strtoul(tk.c_str() + (k == 'R' ? 1 : 2), nullptr, 10);
+    Snap pre; VerifAccess::snap(&pre);
+    execOp(k, a);
+    out.raw("{\"id\":" + std::to_string(id) + ",\"st\":" + pre.json() + ",\"succ\":[{\"in\":\"" + tk + "\",\"op\":[\"" + std::string(1, k) + "\"," + std::to_string(a) +
+            "],\"ev\":[" + g_ev + "],\"to\":" + std::to_string(id + 1) + "}]}\n");
+    id++;
+  }
+  Snap last; VerifAccess::snap(&last);
+  out.raw("{\"id\":" + std::to_string(id) + ",\"st\":" + last.json() + ",\"succ\":[]}\n");
+  fclose(f);
+  printf("{\"nodes\":%ld,\"edges\":%ld}\n", id, id - 1);
+  return 0;
+}
+
 int main(int argc, char** argv) {
   vf::installTerminate();
   if (argc < 3) { fprintf(stderr, "usage: c14_transport graph out [k=1,2,..] [flymax=n] | random out steps\n"); return 2; }
@@ -193,5 +215,6 @@ int main(int argc, char** argv) {
     return cmdGraph(argv[2]);
   }
   if (mode == "random") return cmdRandom(argv[2], atol(argv[3]));
+  if (mode == "replay") return cmdReplay(argv[3], argv[2]);
   return 2;
 }
